@@ -19,6 +19,8 @@ def run(ctx):
     valcorr.MM[:] = ["Soll", "S", "soll", "s", "Muss", "M", "Kann", "k", "SOLL"]
     try:
         cases = valcorr.validation_cases(ctx, 50 if ctx.quick else 1200, unknown=0.03)
+        # undetermined outcomes at many nodes: SOLL rewritten to MUSS aborts where SOLL read as KANN does not, so a flag lost on the way shows
+        cases += valcorr.validation_cases(ctx, 50 if ctx.quick else 800, unknown=0.3)
     finally:
         valcorr.MM[:] = saved
     valcorr.check_val_correspondence(ctx, cases, "C14")
